@@ -49,6 +49,24 @@ func c13Cases() []buildCase {
 			addMessage(f, message("Resp", field("ok", "bool")))
 			addService(f, service("S", cfgMethod("Do", ".t.v1.Req", ".t.v1.Resp", "POST", "/do")))
 		}),
+		one("query annotation on an enum field", func(f M) {
+			addEnum(f, M{"name": "Sort", "value": []any{M{"name": "SORT_UNSPECIFIED", "number": 0}, M{"name": "SORT_ASC", "number": 1}}})
+			addMessage(f, message("Req", withOpt(enumField("sort", ".t.v1.Sort"), "sebuf.http.query", M{"name": "sort"})))
+			addMessage(f, message("Resp", field("ok", "bool")))
+			addService(f, service("S", cfgMethod("List", ".t.v1.Req", ".t.v1.Resp", "GET", "/list")))
+		}),
+		one("query annotation on a repeated string field", func(f M) {
+			addMessage(f, message("Req", withOpt(repeated(field("tags", "string")), "sebuf.http.query", M{"name": "tag"})))
+			addMessage(f, message("Resp", field("ok", "bool")))
+			addService(f, service("S", cfgMethod("List", ".t.v1.Req", ".t.v1.Resp", "GET", "/list")))
+		}),
+		one("query annotation on an optional scalar field", func(f M) {
+			m := message("Req", optionalField(withOpt(field("page", "int32"), "sebuf.http.query", M{"name": "page"}), 0))
+			m["oneof_decl"] = []any{M{"name": "_page"}}
+			addMessage(f, m)
+			addMessage(f, message("Resp", field("ok", "bool")))
+			addService(f, service("S", cfgMethod("List", ".t.v1.Req", ".t.v1.Resp", "GET", "/list")))
+		}),
 		one("no path variables, no query, GET", func(f M) {
 			addMessage(f, message("Req"))
 			addMessage(f, message("Resp", field("ok", "bool")))
